@@ -2568,7 +2568,9 @@ PIP_Solution_Node
 
         WEIGHT_ADD(140);
         if (is_parameter) {
-          p_row.insert(p_index, coeff_i * denom);
+          // NOTE: add to (do not overwrite) the contribution of the rows
+          // of the non-basic variables already met in this constraint.
+          add_mul_assign(p_row[p_index], coeff_i, denom);
           ++p_index;
         }
         else {
